@@ -12,6 +12,11 @@ NON_REENTRANT = {
     'strerror', 'localtime', 'gmtime', 'asctime', 'ctime', 'strtok', 'rand', 'srand', 'getenv', 'setenv',
     'putenv', 'setlocale', 'tmpnam', 'readdir', 'getpwnam', 'getpwuid', 'gethostbyname', 'strsignal', 'ttyname',
     'basename', 'dirname', 'getlogin', 'ptsname', 'drand48', 'lrand48', 'mrand48', 'random', 'srandom',
+    # functions that change state shared by the whole process (signal dispositions, environment, cwd, umask, handlers ...):
+    # two objects on two threads that each "save and restore" such state interfere with each other
+    'signal', 'sigaction', 'sigprocmask', 'bsd_signal', 'sigset', 'unsetenv', 'clearenv', 'umask', 'chdir', 'fchdir', 'chroot',
+    'setuid', 'setgid', 'seteuid', 'setegid', 'setrlimit', 'setpriority', 'nice', 'alarm', 'setitimer', 'atexit', 'at_quick_exit',
+    'set_terminate', 'set_new_handler', 'set_unexpected', 'srand48', 'seed48', 'setvbuf', 'setbuf', 'freopen', 'tzset',
 }
 
 
@@ -22,7 +27,7 @@ def rules(chk, db):
                    'specialisation (one object per thread per (T,Slot))')
     chk.rule('S3', 'ThreadLocal setup writes the slot only when it is empty (first initialisation wins); Clear() clears it')
     chk.rule('S4', 'Encoding<>/EncodingIO<>/SerializerCommon are stateless: no non-static data members, only static members')
-    chk.rule('S5', 'no call to a non-reentrant C library function from any library function', minimum=0)
+    chk.rule('S5', 'no call to a non-reentrant or process-global-state-changing C library function from any library function', minimum=0)
 
     # ---- S1 ------------------------------------------------------------
     seen = set()
@@ -152,6 +157,40 @@ def rules(chk, db):
                            function=ir.fn_label(wf))
         if nwrites == 0:
             chk.unanalysable('S3', rec, 'no assignment to the thread-local slot recognised in %s (setup role not found)' % rec)
+        # the first initialisation must WIN: after the guarded assignment the slot is non-empty whatever the initialiser is - decided
+        # by abstract execution of the assignment for slots whose value type is itself an Optional (empty and non-empty initialiser)
+        if 'nop::Optional<' in rec.split('ThreadLocal<', 1)[-1]:
+            from .. import tablerules, absx
+            for f in members:
+                local = slot_exprs(f)
+                if not local or not f['params']:
+                    continue
+                for c in ir.calls(f['body']):
+                    cal = c.get('callee') or {}
+                    if cal.get('n') != 'operator=' or not c.get('args'):
+                        continue
+                    tgt = ir.strip_all_casts(c['args'][0])
+                    if not (tgt.get('k') == 'un' and tgt['op'] == '*' and ir.strip_all_casts(tgt['e']).get('id') in local):
+                        continue
+                    try:
+                        bad_states = []
+                        done = []
+                        for st in ('empty', 'value'):
+                            try:
+                                still_empty, probs = tablerules.reseat_leaves_value(db, f, c, st, target_local=ir.strip_all_casts(tgt['e'])['id'])
+                            except absx.Unsupported:
+                                if st == 'empty':
+                                    raise
+                                continue        # the empty initialiser is the discriminating case
+                            done.append(st)
+                            if still_empty != 0:
+                                bad_states.append(st)
+                        chk.decide(not bad_states, 'S3', facts.site(f, c.get('loc')) + ' wins',
+                                   'initialising an empty slot of %s with %s initialiser leaves the slot %s' % (
+                                       rec.replace('nop::', '')[:60], ' / '.join('an ' + b if b == 'empty' else 'a ' + b for b in bad_states) or 'any',
+                                       'EMPTY: a later initialisation in the same thread would win' if bad_states else 'non-empty'), function=ir.fn_label(f))
+                    except absx.Unsupported as e:
+                        chk.unanalysable('S3', facts.site(f, c.get('loc')), 'cannot execute the slot assignment abstractly: %s' % e)
     for f in tl_fns:
         if 'body' not in f:
             continue
@@ -194,7 +233,7 @@ def rules(chk, db):
                 if key in seen:
                     continue
                 seen.add(key)
-                chk.bad('S5', facts.site(f, c.get('loc')), 'call to non-reentrant %s() in %s' % (base, f['n']),
+                chk.bad('S5', facts.site(f, c.get('loc')), 'call to %s(), which is non-reentrant or changes process-wide state, in %s' % (base, f['n']),
                         function=ir.fn_label(f))
 
 
